@@ -33,6 +33,8 @@ def run(ctx):
     ctx.attempt(_snapshot_rule, ctx, "R19.12", scope=lambda ci: ci.module.name.startswith(("EasyFEA.Models", "EasyFEA.Simulations")))
     ctx.attempt(multiplier_column_rule, ctx)
     ctx.attempt(flow_step_rule, ctx)
+    ctx.attempt(spectral_dispatch_rule, ctx)
+    ctx.attempt(reducibility_rule, ctx)
     from ..shared import commit_idempotent_rule as _commit_idempotent_rule
 
     ctx.attempt(_commit_idempotent_rule, ctx, "R19.10")
@@ -882,3 +884,167 @@ def flow_step_rule(ctx):
             r.fail(f.qualname, f"flow:{label}", f.file, f.lineno, "Behavior.__Flow", f"yield surface + one Maxwell branch, {label}: {bad}")
         else:
             r.ok(f"{label}: update == __Bound(u - J^-1 r); tangent from the final (J, D)")
+
+
+def spectral_dispatch_rule(ctx, rid="R19.19"):
+    """'both local solvers agree' / 'the integrated stress lies on or inside the current yield surface': the scalar spectral
+    return is an alternative SOLVER for the same local problem.  `Behavior.__Spectral` is interpreted with the callee
+    `_spectral.Solve` recorded: every argument must be the quantity of the behaviour the parameter stands for - the trial
+    stress C (eps - eps_p), the committed p, the hardening and rate objects, dt, and above all `sigma_y`, the radius of
+    the surface the return lands on, which must be the yield stress itself (for a yield stress below AND above 1) - and the
+    state returned must be eps_p = eps - C^-1 sigma, p = p_old + dGamma from the solver's result."""
+    from types import SimpleNamespace
+    from fractions import Fraction as Q
+
+    from ..alg import Poly, is_zero
+    from ..xarray import XArray
+    from ..xeval import Interp, XObj, Opaque, XRaise, EnumVal
+    from ..femchain import XFe, fe_hook_full
+    from ..repo import FuncInfo
+
+    repo = ctx.repo
+    ci = repo.cls(BEH)
+    f = repo.lookup_method(ci, ci.mangle("__Spectral"))
+    r = ctx.rule(rid, "spectral return dispatch: _spectral.Solve receives (eigen, C (eps - eps_p), p_old, hardening, sigma_y = the yield stress, rate, dt, tol, maxIter) and the returned state is (eps - C^-1 sigma, p_old + dGamma), for a yield stress below and above 1", min_instances=2)
+    solve_f = repo.module("EasyFEA.Models.InElastic._spectral").functions["Solve"]
+    pnames = [a.arg for a in solve_f.node.args.args]
+
+    class Slots:
+        _xeval_open = True
+
+        def __getitem__(self, k):
+            nm = k.name if isinstance(k, EnumVal) else str(k)
+            return {"eps_p": slice(0, 6), "p": slice(6, 7)}[nm]
+
+    for sy in (Q(1, 4), Q(4)):
+        r.instance(fn=f.qualname)
+        eps = XFe((1, 1, 6), [Poly.var(f"e{i}") for i in range(6)])
+        zold = XFe((1, 1, 7), [Poly.var(f"z{i}") for i in range(7)])
+        C = XFe((1, 1, 6, 6), [Poly.var(f"c{i}{j}") for i in range(6) for j in range(6)])
+        Cinv = XArray((6, 6), [Poly.var(f"s{i}{j}") for i in range(6) for j in range(6)])
+        sig = XFe((1, 1, 6), [Poly.var(f"sig{i}") for i in range(6)])
+        dG = XFe((1, 1), [Poly.var("dG")])
+        eigen = SimpleNamespace(Cinv=Cinv)
+        hard, rate, dt = Opaque("hardening"), Opaque("rate"), Poly.var("dt")
+        rec = {}
+
+        def hook(fn, args, kwargs):
+            fi = fn if isinstance(fn, FuncInfo) else getattr(fn, "finfo", None)
+            if fi is not None and fi.module.name.endswith("._spectral") and fi.name == "Solve":
+                rec.update(dict(zip(pnames, args)))
+                rec.update(kwargs)
+                return SimpleNamespace(sig=sig, dGamma=dG)
+            if fi is not None and fi.module.name.endswith("._spectral") and fi.name == "Tangent":
+                return Opaque("C_alg")
+            return fe_hook_full(fn, args, kwargs)
+
+        I = Interp(repo)
+        I.call_hook = hook
+        obj = XObj(ci, {
+            ci.mangle("__layout"): SimpleNamespace(slots=Slots(), n=7), ci.mangle("__eigen"): eigen, ci.mangle("__hardening"): hard,
+            ci.mangle("__yield"): SimpleNamespace(scale=sy, P=Opaque("P")), ci.mangle("__rate"): rate, "_tol": Poly.var("tol"), "_maxIter": 50,
+        })
+        try:
+            out = I.call_function(f, [eps, zold, C, dt], self_obj=obj)
+        except XRaise as e:
+            r.fail(f.qualname, f"raises:{sy}", f.file, f.lineno, "Behavior.__Spectral", f"yield stress {sy}: raises {e}")
+            continue
+        bad = []
+        want_tr = [sum((C[0, 0, i, j] * (eps[0, 0, j] - zold[0, 0, j]) for j in range(6)), Poly()) for i in range(6)]
+        tr = rec.get("sigTr_e_pg")
+        if not (isinstance(tr, XArray) and tr.shape == (1, 1, 6) and all(is_zero(Poly.of(a) - b) for a, b in zip(tr.data, want_tr))):
+            bad.append("the trial stress is not C (eps - eps_p)")
+        po = rec.get("pOld_e_pg")
+        if not (isinstance(po, XArray) and list(po.data) == [zold[0, 0, 6]]):
+            bad.append("p_old is not the committed accumulated plastic strain")
+        for nm, want in (("eigen", eigen), ("hardening", hard), ("rate", rate)):
+            if rec.get(nm) is not want:
+                bad.append(f"`{nm}` is not the behaviour's own {nm}")
+        s_y = rec.get("sigma_y")
+        if not (isinstance(s_y, (int, Q, Poly)) and is_zero(Poly.of(s_y) - sy)):
+            bad.append(f"sigma_y - the radius of the surface the return lands on - is {s_y!r} for a yield stress of {sy}: the stress returned by the default solver lies on another surface than the yield surface (and than the one the Newton solver returns to)")
+        if not (isinstance(rec.get("dt"), Poly) and is_zero(rec["dt"] - dt)):
+            bad.append("dt is not the step handed to the integration")
+        if not bad:
+            z = XArray.from_nested(out[2])
+            want_p = [eps[0, 0, i] - sum((Cinv[i, j] * sig[0, 0, j] for j in range(6)), Poly()) for i in range(6)]
+            if z.shape != (1, 1, 7) or not all(is_zero(Poly.of(z[0, 0, i]) - want_p[i]) for i in range(6)) or not is_zero(Poly.of(z[0, 0, 6]) - (zold[0, 0, 6] + Poly.var("dG"))):
+                bad.append("the returned state is not (eps - C^-1 sigma, p_old + dGamma)")
+            if out[0] is not sig:
+                bad.append("the returned stress is not the solver's")
+        if bad:
+            r.fail(f.qualname, f"dispatch:{'sigma_y' if 'sigma_y' in bad[0] else bad[0][:30]}", f.file, f.lineno, "Behavior.__Spectral", f"yield stress {sy}: " + "; ".join(bad))
+        else:
+            r.ok(f"yield stress {sy}: arguments and returned state as specified")
+
+
+def reducibility_rule(ctx, rid="R19.20"):
+    """'both local solvers agree': the scalar spectral return replaces the general local Newton only for behaviours it can
+    represent.  `__Spectral` writes the state slots it knows (read from its own stores: the names bound from
+    `layout.slots[Slot.X]` that index a store); the constructor's own slot table is interpreted for every combination of
+    (kinematic hardening, Maxwell branches); whenever `__Is_reducible()` - interpreted on the same configuration - says
+    yes, every slot of the layout must be one `__Spectral` writes (a slot it does not write is reset to zero at every
+    step: the branch strains / back-strains never evolve)."""
+    from types import SimpleNamespace
+
+    from ..xeval import Interp, XObj, Opaque, XRaise, EnumVal
+    from ..xarray import XArray
+
+    repo = ctx.repo
+    ci = repo.cls(BEH)
+    fI = ci.methods["__init__"]
+    fR = repo.lookup_method(ci, ci.mangle("__Is_reducible"))
+    fS = repo.lookup_method(ci, ci.mangle("__Spectral"))
+    r = ctx.rule(rid, "reducibility: for every combination of kinematic components, Maxwell branches, surface kind, stiffness kind and solver choice, __Is_reducible() implies that every state slot the constructor lays out is written by __Spectral", min_instances=16)
+    # slots written by __Spectral
+    bound = {}
+    for n in walk_no_nested(fS.node):
+        if isinstance(n, ast.Assign):
+            tg = n.targets[0]
+            pairs = list(zip(tg.elts, n.value.elts)) if isinstance(tg, ast.Tuple) and isinstance(n.value, ast.Tuple) and len(tg.elts) == len(n.value.elts) else [(tg, n.value)]
+            for t, v in pairs:
+                if isinstance(t, ast.Name) and isinstance(v, ast.Subscript) and norm_text(v.value).endswith("slots") and isinstance(v.slice, ast.Attribute) and norm_text(v.slice.value) == "Slot":
+                    bound[t.id] = v.slice.attr
+    written = set()
+    for n in walk_no_nested(fS.node):
+        if isinstance(n, ast.Assign) and isinstance(n.targets[0], ast.Subscript):
+            for x in ast.walk(n.targets[0].slice):
+                if isinstance(x, ast.Name) and x.id in bound:
+                    written.add(bound[x.id])
+    if not written:
+        raise AnalysisError(f"{rid}: no slot store found in __Spectral")
+    # the constructor's slot table
+    stmts = [st for st in fI.node.body if any(isinstance(x, ast.Name) and x.id == "sizes" for x in ast.walk(st)) and not any(isinstance(x, ast.Call) and (dotted(x.func) or "").endswith("StateLayout.From") for x in ast.walk(st))]
+    if len(stmts) < 3:
+        raise AnalysisError(f"{rid}: the slot table of Behavior.__init__ was not found")
+    I = Interp(repo)
+    n_red = [0]
+    for nk in (0, 1, 2):
+        for nb in (0, 1):
+            for surface in ("quadratic", "general", None):
+                for cnd in (2, 3):
+                    for solver in ("auto", "newton"):
+                        if surface is None and nk:
+                            continue
+                        r.instance(fn=fR.qualname)
+                        kin = tuple(Opaque(f"k{i}") for i in range(nk))
+                        br = tuple(Opaque(f"b{i}") for i in range(nb))
+                        ys = None if surface is None else SimpleNamespace(P=Opaque("P") if surface == "quadratic" else None, scale=1)
+                        obj = XObj(ci, {ci.mangle("__branches"): br, ci.mangle("__kinematic"): kin, ci.mangle("__yield"): ys, "solver": solver,
+                                        "C": XArray((2,) * 0 + ((6, 6) if cnd == 2 else (2, 6, 6)), [0] * (36 if cnd == 2 else 72))})
+                        try:
+                            (sizes,) = I.run_statements(stmts, {"self": obj, "yieldSurface": ys, "kinematics": kin}, fI.module, ["sizes"], cls=ci)
+                            red = I.call_function(fR, [], self_obj=obj)
+                        except XRaise as e:
+                            r.fail(fR.qualname, f"raises:{nk}{nb}{surface}{cnd}{solver}", fR.file, fR.lineno, "Behavior.__Is_reducible", f"raises {e}")
+                            continue
+                        keys = [(k.name if isinstance(k, EnumVal) else str(k).split(".")[-1]) for k in sizes]
+                        extra = [k for k in keys if k not in written]
+                        label = f"{nk} kinematic component(s), {nb} Maxwell branch(es), {surface or 'no'} surface, C.ndim = {cnd}, solver = {solver}"
+                        n_red[0] += bool(red)
+                        if red and extra:
+                            r.fail(fR.qualname, f"reducible-with:{','.join(sorted(set(x.rstrip('0123456789') for x in extra)))}", fR.file, fR.lineno, "Behavior.__Is_reducible", f"{label}: the behaviour is sent to the spectral return although its state has the slot(s) {extra}, which __Spectral (writing {sorted(written)}) resets to zero at every step: the mechanism never evolves and the default solver disagrees with solver='newton'")
+                        else:
+                            r.ok(f"{label}: reducible = {bool(red)}, slots {keys}")
+    if not n_red[0]:
+        raise AnalysisError(f"{rid}: no configuration is reducible in the model (the plain quadratic surface must be)")
